@@ -13,6 +13,7 @@ import (
 	"go/ast"
 	"go/token"
 	"go/types"
+	"golang.org/x/tools/go/packages"
 	"sort"
 	"strings"
 )
@@ -240,7 +241,22 @@ type condXlat struct {
 	pure     func(call *ast.CallExpr) bool
 	defs     map[types.Object]string // current defining term of locals assigned from calls
 	callOrd  map[*ast.CallExpr]string
-	pathMode bool // translating a condition on a path: locals assigned from calls are named by the path's defs
+	pathMode bool          // translating a condition on a path: locals assigned from calls are named by the path's defs
+	nameFd   *ast.FuncDecl // the function whose naming of variables applies (varKey); default fd
+}
+
+// enter makes the translator's function the naming context of varKey for the duration of one translation.
+func (x *condXlat) enter() func() {
+	fd := x.nameFd
+	if fd == nil {
+		fd = x.fd
+	}
+	if fd == nil || fd == curEnumFd {
+		return func() {}
+	}
+	prev := curEnumFd
+	curEnumFd = fd
+	return func() { curEnumFd = prev }
 }
 
 func (x *condXlat) v(o types.Object) int {
@@ -254,6 +270,7 @@ func (x *condXlat) v(o types.Object) int {
 // locals defined once are replaced by their definition, getters become
 // fields, uint128.New(x.Low, x.High) becomes U128(x).
 func (x *condXlat) term(e ast.Expr) (string, bool) {
+	defer x.enter()()
 	return x.termDepth(e, 0)
 }
 
@@ -311,6 +328,16 @@ func (x *condXlat) termDepth(e ast.Expr, depth int) (string, bool) {
 		}
 		if _, isPkg := x.info.Uses[identOf(t.X)].(*types.PkgName); isPkg {
 			return types.ExprString(t), true
+		}
+		// a field of a struct the function allocated itself is a variable of its own (pseudo.go)
+		if o := pseudoFieldObj(x.info, t); o != nil {
+			if d, ok := x.defs[o]; ok {
+				return d, true
+			}
+			if ver := x.v(o); ver > 0 {
+				return fmt.Sprintf("%s@%d", varKey(o), ver), true
+			}
+			return varKey(o), true
 		}
 		b, ok := x.termDepth(t.X, depth+1)
 		return b + "." + t.Sel.Name, ok
@@ -476,6 +503,7 @@ func (x *condXlat) opaque(e ast.Expr) Formula {
 
 // formula translates a boolean expression.
 func (x *condXlat) formula(e ast.Expr) Formula {
+	defer x.enter()()
 	e = ast.Unparen(e)
 	if tv, ok := x.info.Types[e]; ok && tv.Value != nil {
 		if b, isB := boolConst(x.info, e); isB {
@@ -697,10 +725,24 @@ func varKey(o types.Object) string {
 	if pk == nil {
 		return o.Name()
 	}
+	// the function whose paths are being looked at names everything that occurs in its tree, its own declarations
+	// first: a local of a helper spliced into it never shares a name with one of its own (or of another helper)
+	if curEnumFd != nil {
+		if k, ok := varKeyMap(curEnumFd, pk)[o]; ok {
+			return k
+		}
+	}
 	fd := gProg.enclosingFuncDecl(o.Pos())
 	if fd == nil {
 		return o.Name()
 	}
+	if k, ok := varKeyMap(fd, pk)[o]; ok {
+		return k
+	}
+	return o.Name()
+}
+
+func varKeyMap(fd *ast.FuncDecl, pk *packages.Package) map[types.Object]string {
 	m, ok := varKeyCache[fd]
 	if !ok {
 		m = map[types.Object]string{}
@@ -726,7 +768,7 @@ func varKey(o types.Object) string {
 			// spliced-in helper (declared elsewhere in the file): a helper's parameter that happens to share the
 			// name of the caller's never takes the plain name away from it
 			own := func(o types.Object) bool { return fd.Pos() <= o.Pos() && o.Pos() < fd.End() }
-			sort.Slice(objs, func(i, j int) bool {
+			sort.SliceStable(objs, func(i, j int) bool {
 				if oi, oj := own(objs[i]), own(objs[j]); oi != oj {
 					return oi
 				}
@@ -742,8 +784,5 @@ func varKey(o types.Object) string {
 		}
 		varKeyCache[fd] = m
 	}
-	if k, ok := m[o]; ok {
-		return k
-	}
-	return o.Name()
+	return m
 }
